@@ -302,6 +302,9 @@ func unwrapSynthetic(fn *ssa.Function) *ssa.Function {
 	for _, b := range fn.Blocks {
 		for _, ins := range b.Instrs {
 			if c, ok := ins.(ssa.CallInstruction); ok {
+				if _, isB := c.Common().Value.(*ssa.Builtin); isB {
+					continue // ssa:wrapnilchk in the pointer-receiver wrapper of a value-receiver method
+				}
 				n++
 				callee = c.Common().StaticCallee()
 			}
